@@ -18,7 +18,6 @@ import (
 	"k8s.io/apimachinery/pkg/runtime"
 	"k8s.io/apimachinery/pkg/runtime/schema"
 	"k8s.io/apimachinery/pkg/types"
-	utilruntime "k8s.io/apimachinery/pkg/util/runtime"
 	"k8s.io/apimachinery/pkg/util/sets"
 	kubefake "k8s.io/client-go/kubernetes/fake"
 	corelisters "k8s.io/client-go/listers/core/v1"
@@ -37,7 +36,7 @@ import (
 // real revision handling, against fake clientsets with a recording, fault-injecting reactor and hand-built listers.
 //
 //	case: paused|selOk|r|slots|pol|strat|ru|del|gen|stored|cc|lim|tmpl|fuid|fdel|store|pods|names|faults
-//	  paused 0 absent | 1 "true" | 2 "True" (not the pause value)      selOk 1 | 0 selector does not convert
+//	  paused 0 absent | 1 "true" | 2 "True" (not the pause value)      selOk 1 matchLabels | 0 selector does not convert | 2 empty selector (matches everything)
 //	  stored replicas,ready,current,updated,currentRev,updateRev,observedGen   cc nil|<int> (status.collisionCount)   lim revisionHistoryLimit
 //	  tmpl  identifier of the current pod template      fuid 1 same uid | 0 other uid | 2 gone from the API     fdel fresh object carries a deletion timestamp
 //	  store name:number:ctime:data:hashlabel:owner:sel:marker;...      hashlabel "-" absent, owner s|o|n
@@ -80,6 +79,7 @@ type syFault struct {
 type syCase struct {
 	paused int
 	selOk  bool
+	selAll bool // the selector is {} and matches every pod and revision of the namespace, label-less ones included
 	r      int
 	slots  []int
 	pol    string
@@ -110,7 +110,11 @@ func (c *syCase) line() string {
 	for _, f := range c.faults {
 		fs = append(fs, fmt.Sprintf("%s@%d@%s", f.key, f.occ, f.kind))
 	}
-	return strings.Join([]string{strconv.Itoa(c.paused), b2s(c.selOk), strconv.Itoa(c.r), joinInts(c.slots), c.pol, c.strat, c.ru, b2s(c.del), strconv.Itoa(c.gen),
+	selField := b2s(c.selOk)
+	if c.selAll {
+		selField = "2"
+	}
+	return strings.Join([]string{strconv.Itoa(c.paused), selField, strconv.Itoa(c.r), joinInts(c.slots), c.pol, c.strat, c.ru, b2s(c.del), strconv.Itoa(c.gen),
 		strings.Join(c.stored[:], ","), c.cc, strconv.Itoa(c.lim), c.tmpl, strconv.Itoa(c.fuid), b2s(c.fdel), strings.Join(rs, ";"), strings.Join(ps, ";"), c.names, strings.Join(fs, ";")}, "|")
 }
 
@@ -119,7 +123,7 @@ func parseSyCase(line string) (*syCase, error) {
 	if len(f) != 19 {
 		return nil, fmt.Errorf("want 19 fields, got %d", len(f))
 	}
-	c := &syCase{paused: atoi(f[0]), selOk: f[1] == "1", r: atoi(f[2]), slots: parseInts(f[3]), pol: f[4], strat: f[5], ru: f[6], del: f[7] == "1", gen: atoi(f[8]),
+	c := &syCase{paused: atoi(f[0]), selOk: f[1] != "0", selAll: f[1] == "2", r: atoi(f[2]), slots: parseInts(f[3]), pol: f[4], strat: f[5], ru: f[6], del: f[7] == "1", gen: atoi(f[8]),
 		cc: f[10], lim: atoi(f[11]), tmpl: f[12], fuid: atoi(f[13]), fdel: f[14] == "1", names: f[17]}
 	st := strings.Split(f[9], ",")
 	if len(st) != 7 {
@@ -412,6 +416,9 @@ func buildSyWorld(c *syCase) *syWorld {
 	case 2:
 		set.Annotations[helper.PausedReconcileAnn] = "True"
 	}
+	if c.selAll {
+		set.Spec.Selector = &metav1.LabelSelector{}
+	}
 	if !c.selOk {
 		set.Spec.Selector = &metav1.LabelSelector{MatchExpressions: []metav1.LabelSelectorRequirement{{Key: "app", Operator: "Bogus", Values: []string{"x"}}}}
 	}
@@ -452,7 +459,7 @@ func buildSyWorld(c *syCase) *syWorld {
 			Data:     runtime.RawExtension{Raw: syPatchOf(c, r.data)},
 			Revision: int64(r.number),
 		}
-		if r.sel {
+		if r.sel && !c.selAll {
 			rev.Labels["app"] = rcSetName
 		}
 		if r.marker {
@@ -479,7 +486,7 @@ func buildSyWorld(c *syCase) *syWorld {
 		pod.UID = types.UID("pod-" + p.name)
 		pod.OwnerReferences = syOwnerRefs(p.owner)
 		pod.Labels = map[string]string{}
-		if p.sel {
+		if p.sel && !c.selAll {
 			pod.Labels["app"] = rcSetName
 		}
 		if p.idOk {
@@ -487,6 +494,9 @@ func buildSyWorld(c *syCase) *syWorld {
 		}
 		if p.rev != "" {
 			pod.Labels[kubeapps.StatefulSetRevisionLabel] = p.rev
+		}
+		if len(pod.Labels) == 0 {
+			pod.Labels = nil // a pod without any label (only a selector that matches everything selects it)
 		}
 		pod.Status.Phase = phaseOf(p.phase)
 		if p.ready {
@@ -540,16 +550,15 @@ func (w *syWorld) finalRevs(c *syCase) string {
 			}
 		}
 		_, mk := r.Labels[helper.UpgradeToAdvancedStatefulSetAnn]
-		out = append(out, fmt.Sprintf("%s:%d:%s:%s:%s:%s", r.Name, r.Revision, owner, b2s(r.Labels["app"] == rcSetName), b2s(mk), dataOf(r.Data.Raw)))
+		out = append(out, fmt.Sprintf("%s:%d:%s:%s:%s:%s", r.Name, r.Revision, owner, b2s(c.selAll || r.Labels["app"] == rcSetName), b2s(mk), dataOf(r.Data.Raw)))
 	}
 	sort.Strings(out)
 	return strings.Join(out, ";")
 }
 
-var syPanicOnce sync.Once
 
 func runSyncCase(c *syCase) (obs string, log []string) {
-	syPanicOnce.Do(func() { utilruntime.ReallyCrash = false })
+	watchSwallowedPanics()
 	w := buildSyWorld(c)
 	before := w.cached.DeepCopy()
 	var podsBefore []*v1.Pod
@@ -569,6 +578,11 @@ func runSyncCase(c *syCase) (obs string, log []string) {
 			out = "err"
 		}
 	}()
+	if msg, ok := swallowedPanic(); ok && out != "panic" {
+		// a panic inside a retry loop: swallowed here, fatal in production
+		out = "panic"
+		site = sanitize(msg)
+	}
 	mut := !reflect.DeepEqual(before, w.cached)
 	for i, p := range w.cpods {
 		if !reflect.DeepEqual(podsBefore[i], p) {
@@ -689,6 +703,7 @@ func genSyCase(rng *rand.Rand) *syCase {
 	if rng.Intn(40) == 0 {
 		c.selOk = false
 	}
+	c.selAll = c.selOk && rng.Intn(12) == 0
 	c.del = rng.Intn(10) == 0
 	c.fuid = pick(rng, 1, 1, 1, 1, 1, 1, 1, 1, 0, 2)
 	c.fdel = c.del && rng.Intn(3) != 0 || rng.Intn(12) == 0
@@ -734,6 +749,11 @@ func genSyCase(rng *rand.Rand) *syCase {
 		}
 		c.store = append(c.store, r)
 	}
+	if c.selAll {
+		for i := range c.store {
+			c.store[i].sel = true
+		}
+	}
 	sort.Slice(c.store, func(i, j int) bool { return c.store[i].name < c.store[j].name })
 	revNames := []string{}
 	for _, r := range c.store {
@@ -750,6 +770,14 @@ func genSyCase(rng *rand.Rand) *syCase {
 			continue
 		}
 		c.pods = append(c.pods, genSyPod(rng, c, o, revNames))
+	}
+	if c.selAll {
+		for i := range c.pods {
+			c.pods[i].sel = true
+			if rng.Intn(3) == 0 { // no label at all
+				c.pods[i].idOk, c.pods[i].rev = false, ""
+			}
+		}
 	}
 	rng.Shuffle(len(c.pods), func(i, j int) { c.pods[i], c.pods[j] = c.pods[j], c.pods[i] })
 	// no two pods with the same name
